@@ -28,13 +28,21 @@ fn tsel_builder(f: &Frag) -> SelectorBuilder<'static> {
     SelectorBuilder::textselector(rid(f.0), Offset::simple(f.1, f.2))
 }
 
-/// one text selector or a DirectionalSelector over several
-fn target_of(frags: &[Frag]) -> SelectorBuilder<'static> {
+/// one text selector or a complex selector over several (0 Directional, 1 Multi, 2 Composite)
+fn target_of_kind(frags: &[Frag], kind: i64) -> SelectorBuilder<'static> {
     if frags.len() == 1 {
         tsel_builder(&frags[0])
     } else {
-        SelectorBuilder::DirectionalSelector(frags.iter().map(tsel_builder).collect())
+        let subs: Vec<SelectorBuilder<'static>> = frags.iter().map(tsel_builder).collect();
+        match kind {
+            1 => SelectorBuilder::MultiSelector(subs),
+            2 => SelectorBuilder::CompositeSelector(subs),
+            _ => SelectorBuilder::DirectionalSelector(subs),
+        }
     }
+}
+fn target_of(frags: &[Frag]) -> SelectorBuilder<'static> {
+    target_of_kind(frags, 0)
 }
 
 fn read_tsels(ann: &ResultItem<Annotation>) -> Vec<Frag> {
@@ -138,7 +146,8 @@ impl Ctx {
     ///   kind 0: simple transposition, sides = ((res b e) ...)        one fragment per side
     ///   kind 1: complex transposition, sides = (((res b e) ...) ...) one annotation per side
     ///   source annotation "src" over resource res with the listed ranges (in that order)
-    ///   side = -1: TranspositionSide::Auto, i: ByIndex(i); mode 0: transpose the annotation, 1: its text selection set
+    ///   side = -1: TranspositionSide::Auto, i: ByIndex(i); mode 0: transpose the annotation, 1: its text selection set;
+    ///   optional third element: selector of a multi-range source 0 Directional (default), 1 Multi, 2 Composite
     /// model input: (texts (kind sides-as-read-back) (res ranges-as-read-back) (side mode) fwd back_byindex back_auto)
     /// sub-cases: 0 forward; 1 back over the new transposition with ByIndex(j) for every target side j;
     ///            2 the same with Auto
@@ -149,6 +158,7 @@ impl Ctx {
         let srcranges: Vec<Frag> = req.nth(2).nth(1).list().iter().map(|p| (srcres, p.nth(0).int() as usize, p.nth(1).int() as usize)).collect();
         let side = req.nth(3).nth(0).int();
         let mode = req.nth(3).nth(1).int();
+        let selkind = req.nth(3).nth(2).int();
         let skip = |why: i64| (l(vec![a(-1), a(why)]), vec![], false);
 
         let mut store = AnnotationStore::default().with_id("c16");
@@ -191,7 +201,7 @@ impl Ctx {
                 return skip(4);
             }
         }
-        if srcranges.is_empty() || store.annotate(AnnotationBuilder::new().with_id("src").with_target(target_of(&srcranges)).with_data("s", "k", "v")).is_err() {
+        if srcranges.is_empty() || store.annotate(AnnotationBuilder::new().with_id("src").with_target(target_of_kind(&srcranges, selkind)).with_data("s", "k", "v")).is_err() {
             return skip(5);
         }
 
@@ -237,12 +247,16 @@ impl Ctx {
 }
 
 fn req_sx(texts: &[String], kind: i64, sides: &[Vec<Frag>], srcres: usize, ranges: &[(usize, usize)], side: i64, mode: i64) -> Sx {
+    req_sx_k(texts, kind, sides, srcres, ranges, side, mode, 0)
+}
+
+fn req_sx_k(texts: &[String], kind: i64, sides: &[Vec<Frag>], srcres: usize, ranges: &[(usize, usize)], side: i64, mode: i64, selkind: i64) -> Sx {
     let sides_sx = if kind == 0 { l(sides.iter().map(|s| frag_sx(&s[0])).collect()) } else { l(sides.iter().map(|s| frags_sx(s)).collect()) };
     l(vec![
         l(texts.iter().map(|t| crate::sx::text(t)).collect()),
         l(vec![a(kind), sides_sx]),
         l(vec![a(srcres as i64), l(ranges.iter().map(|(x, y)| l(vec![a(*x as i64), a(*y as i64)])).collect())]),
-        l(vec![a(side), a(mode)]),
+        if selkind == 0 { l(vec![a(side), a(mode)]) } else { l(vec![a(side), a(mode), a(selkind)]) },
     ])
 }
 
@@ -487,11 +501,15 @@ pub fn generate(out: &mut Out, tier: &str, seed: u64) {
             let (res, ranges) = random_source(&mut rng, &texts, &sides);
             let side = if rng.chance(3, 4) { -1 } else { rng.below(sides.len() + 1) as i64 };
             let mode = if rng.chance(3, 4) { 0 } else { 1 };
-            emit(out, req_sx(&texts, kind, &sides, res, &ranges, side, mode), if kind == 0 { "random_simple" } else { "random_complex" });
+            let selkind = if ranges.len() > 1 && rng.chance(1, 3) { 1 + rng.below(2) as i64 } else { 0 };
+            if selkind != 0 {
+                out.count("source_multi_or_composite");
+            }
+            emit(out, req_sx_k(&texts, kind, &sides, res, &ranges, side, mode, selkind), if kind == 0 { "random_simple" } else { "random_complex" });
         }
     }
 }
 
-pub const RULE: &str = "exhaustive: 17 fixed layouts of 1-3 texts sharing fragments (adjacent fragments, sides listing them reversed / re-ordered, fragments re-ordered in the other text, three sides with two in one resource, zero-width fragments, overlapping fragments, gaps, both sides in one resource, a side spanning two resources, overlapping sides, simple transpositions with 2 and 3 sides, four ill-formed ones) x every resource as source x every single range 0<=b<=e<=len x TranspositionSide Auto / every index / one beyond x annotation or text selection set, plus all ordered pairs of ranges over a position grid (every position in the thorough tier); random: texts over small alphabets (incl. multi-byte) cut into up to 5 fragments with gaps, now and then a zero-width or overlapping fragment, 1-2 derived texts (re-ordered, filler inserted, sometimes appended to the same resource), sides listed in random order, 1-3 source ranges of every position class (inside one fragment, between two fragments, partly outside, anywhere). Per case: transpose, annotate_from_iter of the result, new transposition read back through annotations_in_targets/textselections, store compared before/after transpose(), then every target side transposed back over the new transposition with ByIndex and with Auto. The property predicate (piecewise equal text on all sides, source side = the source cut into consecutive pieces, inside the text, right resources, coverage, unchanged store, exact offsets on the way back) is evaluated by the extracted specification on what the implementation returned; the model's answer is compared with the implementation's. Non-trivial = the forward transposition succeeded; distinct = distinct request lines.";
+pub const RULE: &str = "exhaustive: 17 fixed layouts of 1-3 texts sharing fragments (adjacent fragments, sides listing them reversed / re-ordered, fragments re-ordered in the other text, three sides with two in one resource, zero-width fragments, overlapping fragments, gaps, both sides in one resource, a side spanning two resources, overlapping sides, simple transpositions with 2 and 3 sides, four ill-formed ones) x every resource as source x every single range 0<=b<=e<=len x TranspositionSide Auto / every index / one beyond x annotation or text selection set, plus all ordered pairs of ranges over a position grid (every position in the thorough tier); random: texts over small alphabets (incl. multi-byte) cut into up to 5 fragments with gaps, now and then a zero-width or overlapping fragment, 1-2 derived texts (re-ordered, filler inserted, sometimes appended to the same resource), sides listed in random order, 1-3 source ranges of every position class (inside one fragment, between two fragments, partly outside, anywhere), multi-range sources as Directional, Multi or Composite selector. Per case: transpose, annotate_from_iter of the result, new transposition read back through annotations_in_targets/textselections, store compared before/after transpose(), then every target side transposed back over the new transposition with ByIndex and with Auto. The property predicate (piecewise equal text on all sides, source side = the source cut into consecutive pieces, inside the text, right resources, coverage, unchanged store, exact offsets on the way back) is evaluated by the extracted specification on what the implementation returned; the model's answer is compared with the implementation's. Non-trivial = the forward transposition succeeded; distinct = distinct request lines.";
 
 pub const EXHAUSTIVE: bool = true;
